@@ -151,6 +151,9 @@ def brief(e):
 # events a subscriber receives (unregister refused, unexpected / missing / reordered events, the subscriber table).
 # Statistics counters and the content of the trace events belong to neither: observations.
 SCOPE = {
+    # C04: every call gets exactly one answer, its own, on its own connection, whatever mode the object is in
+    "C04": ("modes/unanswered", "modes/probe/unanswered", "modes/answer", "modes/hang", "modes/crash",
+            "modes/trace-validation/invariant/AnsweredOnceT"),
     "C12": ("modes/crash", "modes/runaway", "modes/unanswered", "modes/hang", "modes/probe", "modes/answer", "modes/barrier",
             "modes/send", "modes/table/registration-executed-after-disconnect-kept", "modes/table/subscriber-of-lost-connection-kept",
             "modes/trace-validation/invariant/NoCrash", "modes/trace-validation/invariant/AnsweredOnceT",
